@@ -371,7 +371,7 @@ def build(C):
               rewrites=[('X5', 'BoxCloneService<Request<Bytes>, Response<Bytes>, Infallible>', 'Svc', 1)], spec='''
     ensures
         r.send_stream.codec == r.recv_stream.codec, // @OBL BiStreamRequestHandler::new::same_codec_both_directions [C15] the serving side frames what it receives and what it sends with one and the same limit
-        r.send_stream.codec.lfl == 4 && r.send_stream.codec.be && (config.max_frame_size is Some ==> r.send_stream.codec.max == config.max_frame_size->Some_0), // @OBL BiStreamRequestHandler::new::codec_from_config [C15] that limit is the configured maximum frame size
+        r.send_stream.codec.lfl == 4 && r.send_stream.codec.be && r.send_stream.codec.plain && (config.max_frame_size is Some ==> r.send_stream.codec.max == config.max_frame_size->Some_0), // @OBL BiStreamRequestHandler::new::codec_from_config [C15] that limit is the configured maximum frame size
         r.send_stream.inner == send_stream && r.recv_stream.inner == recv_stream && r.recv_stream.buffered@.len() == 0 && r.connection == connection && r.service == service, // @OBL BiStreamRequestHandler::new::wraps_the_given_streams [C02] the handler serves exactly the stream pair it was created for
 ''')
     t += C.fn(RH, 'impl BiStreamRequestHandler :: fn do_handle', 'BiStreamRequestHandler::do_handle', ['C02', 'C01', 'C06', 'C15'], ret='r',
@@ -381,7 +381,7 @@ def build(C):
                         dict(rule='X5', pattern='.stopped().await', repl='.stopped().resolved().await', optional=True)],
               spec='''
     requires
-        old(self).send_stream.codec.lfl == 4 && old(self).send_stream.codec.be && old(self).recv_stream.codec.lfl == 4 && old(self).recv_stream.codec.be,
+        old(self).send_stream.codec.lfl == 4 && old(self).send_stream.codec.be && old(self).send_stream.codec.plain && old(self).recv_stream.codec.lfl == 4 && old(self).recv_stream.codec.be && old(self).recv_stream.codec.plain,
         old(self).recv_stream.buffered@.len() == 0,
     ensures
         final(self).service.calls@.len() <= old(self).service.calls@.len() + 1, // @OBL do_handle::at_most_one_invocation [C02] one stream causes at most one invocation of the service: no request is delivered to a handler more than once
@@ -402,7 +402,7 @@ def build(C):
     t += C.fn(RH, 'impl BiStreamRequestHandler :: fn handle', 'BiStreamRequestHandler::handle', ['C06'],
               sig_rewrites=[('self', '&mut self')], spec='''
     requires
-        old(self).send_stream.codec.lfl == 4 && old(self).send_stream.codec.be && old(self).recv_stream.codec.lfl == 4 && old(self).recv_stream.codec.be,
+        old(self).send_stream.codec.lfl == 4 && old(self).send_stream.codec.be && old(self).send_stream.codec.plain && old(self).recv_stream.codec.lfl == 4 && old(self).recv_stream.codec.be && old(self).recv_stream.codec.plain,
         old(self).recv_stream.buffered@.len() == 0,
     ensures
         true, // @OBL BiStreamRequestHandler::handle::swallows_errors [C06] a failed exchange ends this stream's task normally: the error is swallowed here (no panic, nothing propagates to the connection or the network)
